@@ -452,6 +452,12 @@ func c11(r *core.Report) {
 	r.Rule("C11-ATTRIBUTION", "mbapp assembles and attributes ask requests/replies per packet source and group id", 8)
 	ruleReassemblyKeyMbapp(r, "C11-ATTRIBUTION")
 
+	// ---- C11-REPLY-COPIED (shared with C01-BORROW-RECV): a reply (or request) kept by reference
+	// instead of copied aliases the receive worker's buffer, which the next message overwrites — the
+	// asker then gets another handler's bytes with a nil error
+	r.Rule("C11-REPLY-COPIED", "no alias of a received payload (ask replies included) outlives the receive callback or is written", 9)
+	ruleBorrowRecv(r, h, newBorrowEngine(p, h), "C11-REPLY-COPIED")
+
 	// ---- C11-CTX
 	r.Rule("C11-CTX", "blocking dependency calls on the Ask paths are bound to the caller's context", 6)
 	ruleCtxExternal(r, "C11-CTX", ctxMethods(p, "Ask"))
